@@ -18,11 +18,12 @@ for _p in ("C01", "C08"):
 def _set_prop(prop):
     def fn(report, tier):
         from . import setprops
-        setprops.check_set_property(prop, report, tier, extra_files=(["HintTV.v"] if prop in ("C12", "C19") else []))
+        from . import setcorr
+        setprops.check_set_property(prop, report, tier, corr=setcorr.run, extra_files=(["HintTV.v"] if prop in ("C12", "C19", "C03") else []))
     return fn
 
 
-for _p in ("C12", "C19"):
+for _p in ("C03", "C04", "C11", "C12", "C19"):
     REGISTRY[_p] = _set_prop(_p)
 
 
